@@ -738,14 +738,14 @@ func C07() *check.Property {
 		Title:    "Errors and panics surface once as an Error notification, never as a crash",
 		Patterns: cat(CorePatterns, PluginPkgs, []string{PromPkg}, RatePkgs),
 		Scope:    []string{ro},
-		Rules:    []check.Rule{ruleUserFnContext(), ruleGoRecover(), ruleCoreRecover(), ruleErrResultUsed(), ruleUnwrap(), ruleLockPairing()},
+		Rules:    []check.Rule{ruleUserFnContext(), ruleGoRecover(), ruleCoreRecover(), ruleErrResultUsed(), ruleUnwrap(), ruleLockPairing(), rulePanicSafeUnlock(), ruleErrorKind(), ruleLockRegion()},
 		Explanation: "Static effect/placement check. User code can run in four kinds of places; the rules prove where each call of a user-supplied function sits (from the model's emission contexts) and that the recover points exist: " +
 			"the subscribe function runs inside a try whose handler emits Error and unsubscribes (CORE-RECOVER), observer callbacks run inside the try* helpers, library goroutines go through the recover wrapper or contain no user call (GO-RECOVER), " +
 			"user functions are only called in the subscribe body, a next slot or a teardown (USER-FN-CONTEXT), errors returned by callees become Error notifications without falling through (ERR-RESULT-USED), error wrappers unwrap (UNWRAP) and no function leaves a lock held on a normal exit (LOCK-PAIRING).",
 		NotDecided:  "panics in custom Observer implementations while subscriberImpl.mu is held (the unlocks are not deferred); exactly-once along a chain (follows from C01); the injected-fault sequences themselves (no execution).",
 		Assumptions: []string{"lo.TryCatchWithErrorValue recovers panics of its first argument and passes the value to the second"},
-		Floors:      map[string]int{"user_calls": 30, "go_statements": 8, "functions_with_locks": 40, "error_wrappers": 3},
-		Controls:    map[string]string{"zz_verif_controls_c07.go": roControl(controlsC07)},
+		Floors:      map[string]int{"user_calls": 30, "go_statements": 8, "functions_with_locks": 40, "error_wrappers": 3, "foreign_calls_in_locking_functions": 1, "error_slot_notifications": 80, "delivering_methods": 3},
+		Controls:    map[string]string{"zz_verif_controls_c07.go": roControl(controlsC07 + controlsC07b)},
 	}
 }
 
@@ -925,3 +925,158 @@ func isDiscardedLog(m *model.Model, sc *model.SC, call *ast.CallExpr) bool {
 	}
 	return true
 }
+
+// PANIC-SAFE-UNLOCK: foreign code is never called with a lock held that only an explicit
+// (non-deferred) Unlock would release.
+func rulePanicSafeUnlock() check.Rule {
+	return check.Rule{
+		Name:        "PANIC-SAFE-UNLOCK",
+		Doc:         "whenever a function-typed parameter or struct field (a teardown, a callback: code the library does not own) is called while a mutex is held, that mutex is released by a deferred Unlock, so a panic in the callee cannot leave the lock held",
+		NeedControl: true,
+		Run: func(c *check.Ctx) {
+			m := c.M
+			scs := scLits(m)
+			params := map[*types.Var]bool{}
+			for _, p := range m.Pkgs {
+				for _, fn := range funcNodes(p) {
+					for _, v := range model.FlattenParams(p.TypesInfo, funcType(fn).Params) {
+						if v != nil {
+							params[v] = true
+						}
+					}
+				}
+			}
+			for _, p := range m.Pkgs {
+				if strings.HasSuffix(p.PkgPath, "/internal/xsync") {
+					continue
+				}
+				armed := c.ArmedPkg(p.PkgPath)
+				info := p.TypesInfo
+				for _, fn := range funcNodes(p) {
+					body := funcBody(fn)
+					if body == nil {
+						continue
+					}
+					var res = lockResult(p, fn)
+					if len(res.Ops) == 0 {
+						continue
+					}
+					n := 0
+					ast.Inspect(body, func(x ast.Node) bool {
+						if l, ok := x.(*ast.FuncLit); ok && ast.Node(l) != fn {
+							return false
+						}
+						call, ok := x.(*ast.CallExpr)
+						if !ok {
+							return true
+						}
+						var fv *types.Var
+						switch f := ast.Unparen(call.Fun).(type) {
+						case *ast.Ident:
+							if v, ok := objOf(info, f).(*types.Var); ok && params[v] {
+								fv = v
+							}
+						case *ast.SelectorExpr:
+							if s, ok := info.Selections[f]; ok && s.Kind() == types.FieldVal {
+								fv, _ = s.Obj().(*types.Var)
+							}
+						}
+						if fv == nil {
+							return true
+						}
+						if _, isSig := fv.Type().Underlying().(*types.Signature); !isSig {
+							return true
+						}
+						n++
+						c.Inc("foreign_calls_in_locking_functions", 1)
+						key := fmt.Sprintf("%s/foreign-call-%s#%d", chainKey(m, p, m.EnclosingFuncs(p, fn), scs), fv.Name(), n)
+						held := res.UndeferredAt(call)
+						if len(held) == 0 {
+							if armed {
+								c.OK(key, call.Pos(), "no lock is held without a deferred unlock when %s is called", fv.Name())
+							}
+						} else {
+							c.Report(armed, key, call.Pos(), "%s (code the library does not own) is called while %s is held and released only by an explicit Unlock: a panic in it leaves the lock held and every later caller blocks", fv.Name(), held)
+						}
+						return true
+					})
+				}
+			}
+		},
+	}
+}
+
+// errorToCompletionByDefinition: operators that close an inner stream normally when the
+// source fails, by their documented definition.
+var errorToCompletionByDefinition = map[string]string{
+	"ro.WindowWhen": "closes the current window before forwarding the error to the outer stream (documented: the window completes when the source terminates)",
+}
+
+// ERROR-KIND: an error is not turned into a completion.
+func ruleErrorKind() check.Rule {
+	return check.Rule{
+		Name:        "ERROR-KIND",
+		Doc:         "inside the error slot of an upstream observer no observer (the destination, a group, a window, a stored observer) is sent a Complete notification, unless the operator's definition consumes errors (same list as ERR-PROPAGATION): a failure must surface as an Error notification to everyone who can receive it",
+		NeedControl: true,
+		Run: func(c *check.Ctx) {
+			for _, sc := range c.M.SCs {
+				armed := c.Armed(sc)
+				n := 0
+				for _, e := range sc.Emits {
+					if e.Ctx.Kind != model.KSrc || e.Slot != model.SlotError {
+						continue
+					}
+					c.Inc("error_slot_notifications", 1)
+					if e.Kind != model.EmitComplete {
+						continue
+					}
+					n++
+					key := fmt.Sprintf("%s/error-slot-complete#%d", sc, n)
+					if why, ok := errorHandledByDefinition[sc.String()]; ok {
+						if armed {
+							c.OK(key, e.Pos, "by definition: %s", why)
+						}
+						continue
+					}
+					if why, ok := errorToCompletionByDefinition[sc.String()]; ok {
+						if armed {
+							c.OK(key, e.Pos, "by definition: %s", why)
+						}
+						continue
+					}
+					c.Report(armed, key, e.Pos, "the error slot sends a Complete notification (to %s): the failure reaches that observer as a normal completion instead of an Error notification", recvName(e))
+				}
+			}
+		},
+	}
+}
+
+func recvName(e *model.EmitSite) string {
+	if e.ToDest {
+		return "the destination"
+	}
+	if e.RecvExpr != nil {
+		return types.ExprString(e.RecvExpr)
+	}
+	return "another observer"
+}
+
+const controlsC07b = `
+func verifControlLockAroundCallback(mu *sync.Mutex, cb func()) {
+	mu.Lock()
+	cb()
+	mu.Unlock()
+}
+
+func verifControlErrorToComplete[T any]() func(Observable[T]) Observable[T] {
+	return func(source Observable[T]) Observable[T] {
+		return NewUnsafeObservableWithContext(func(subscriberCtx context.Context, destination Observer[T]) Teardown {
+			sub := source.SubscribeWithContext(subscriberCtx, NewObserverWithContext(
+				destination.NextWithContext,
+				func(ctx context.Context, err error) { destination.CompleteWithContext(ctx) },
+				destination.CompleteWithContext))
+			return sub.Unsubscribe
+		})
+	}
+}
+`
